@@ -51,12 +51,15 @@ def parseOp (ws : List String) : Option Op :=
   | ["reject", source, ext, signer] => some (.reject source ext signer)
   | ["cancelpay", signer, ext] => some (.cancelpay signer ext)
   | ["retarget", signer, ext, nt] => some (.retarget signer ext (if nt = "-" then "" else nt))
-  | ["gov", name, caller] => some (.gov name caller)
+  | "gov" :: name :: caller :: rest =>
+    some (.gov name caller { market := ((kv rest "m") >>= parseNat?).getD 0, subject := (kv rest "subj").getD "",
+                             denom := (kv rest "d").getD "", nameKind := (kv rest "nm").getD "" })
   | _ => none
 
-/-- The property's conclusion evaluated on the implementation's observed result `r` (first word)
-of `op` in model state `s`. -/
-def verdict (s : State) (op : Op) (r : String) : String :=
+/-- The property's conclusion evaluated on the implementation's observed result `r` (first word;
+`tag` = how a let-through governance request ended: `#ok` the handler executed it, `#err` /
+`#panic` it failed later for another reason) of `op` in model state `s`. -/
+def verdict (s : State) (op : Op) (r : String) (tag : String := "") : String :=
   match op with
   | .perms admin m _ =>
     let allowed := endpointAllowed s .MarketManagePermissions m admin
@@ -91,20 +94,33 @@ def verdict (s : State) (op : Op) (r : String) : String :=
     match findPayment s signer ext with
     | none => if r = "ok" then "fail:payment_retargeted_by_non_source" else "ok"
     | some _ => "ok"
-  | .gov name caller =>
+  | .gov name caller _ =>
     let allowed := govAllowed s caller
-    if r = "pass" ∧ !allowed then s!"fail:gov_endpoint_open:{name}"
+    if r = "pass" ∧ !allowed then
+      -- a caller other than the authority was not turned away: either its request was executed …
+      if tag = "#ok" then s!"fail:gov_endpoint_open:{name}"
+      -- … or it got past the authority comparison and the request failed for an unrelated reason
+      else s!"fail:gov_guard_passed:{name}"
     else if r = "err:authority" ∧ allowed then s!"fail:gov_rejects_authority:{name}" else "ok"
 
+/-- the `grants=` field of a canonical dump line -/
+def grantsField (dumpLine : String) : String := ((dumpLine.splitOn " ").headD "")
+
+/-- Frame clause on the observed state: after any history the grants in the store are exactly
+those the exact-effect theorem (`updatePermissions_effect`) leaves — nothing granted that no
+permitted request asked for, nothing kept that a successful request revoked. -/
+def dumpVerdict (s : State) (impl : String) : String :=
+  if grantsField impl = grantsField (dump s) then "ok" else "fail:grants_not_exact_effect"
+
 def stepOp (s : State) (ws : List String) (impl : Option String) : State × String × String :=
-  if ws = ["dump"] then (s, dump s, "-") else
+  if ws = ["dump"] then (s, dump s, match impl with | none => "-" | some i => dumpVerdict s i) else
   match parseOp ws with
   | none => (s, "bad-op", "-")
   | some op =>
     let (s', out) := applyOp s op
     let v := match impl with
       | none => "-"
-      | some i => verdict s op ((i.splitOn " ").headD "")
+      | some i => verdict s op ((i.splitOn " ").headD "") (((i.splitOn " ").drop 1).headD "")
     (s', out, v)
 
 def driver : Driver where
